@@ -19,6 +19,25 @@ desc: coder_normal with liblzma and all I/O replaced by nondeterministic stubs (
 assume: lzma_code/io_read/io_write/io_fix_src_pos/message_xxx, hardware_threads_is_mt are stubs; --block-list is not in use (opt_block_list == NULL)
 */
 /*@obligation
+id: C17.coder_normal.6
+props: C17 C18
+entry: h_coder_normal
+flags: xz
+kind: bounded
+bound: histories of at most 6 lzma_code() calls per file (each call, read and write with arbitrary results); the loop body does not depend on the iteration number
+defs: -DCN_MAXCALLS=6
+tier: thorough
+unwind: 8
+nondet_volatile: user_abort
+fn: coder_normal coder_write_output
+sentinels: 5
+expect: 20
+replay: none
+timeout: 6000
+desc: coder_normal with liblzma and all I/O replaced by nondeterministic stubs (lzma_code may return ANY code and consume/produce any amounts, io_read may fail or hit EOF at any call, io_write may fail at any call, a signal may arrive at any check of user_abort): it returns true (the ONLY thing that lets io_close remove the source) only if the last lzma_code call returned LZMA_STREAM_END, no read or write failed, every byte lzma_code produced was handed to a successful io_write before returning (ghost byte accounting; nothing is left in the output buffer), and -- unless trailing input is allowed (single-stream/lzip-style modes) -- the input was at EOF with nothing left over (trailing garbage makes it an error); every other outcome (error code, failed write, failed read, signal) returns false; io_write is always given the output buffer from its start with exactly the produced amount; in test mode nothing is written
+assume: lzma_code/io_read/io_write/io_fix_src_pos/message_xxx, hardware_threads_is_mt are stubs; --block-list is not in use (opt_block_list == NULL)
+*/
+/*@obligation
 id: C17.coder_passthru
 props: C17
 entry: h_coder_passthru
@@ -70,6 +89,24 @@ timeout: 1200
 desc: xz's pre-flight memory adjustment with liblzma's estimators replaced by stubs that may return ANY value at every call (recorded with the configuration they were asked about): when coder_set_compression_settings returns normally, the LAST estimate it obtained is for exactly the configuration it leaves behind (thread count / single- or multi-threaded mode / dictionary size) and that estimate is <= the memory limit in force -- the only exception being the documented one: multi-threaded compression with the AUTOMATIC (not user-specified) limit continues with one worker thread even if still above it; otherwise it ends in an error (memlimit_too_small / message_fatal); settings are only ever lowered (threads <= requested, dictionary <= requested, never below 1 MiB when reduced, still a multiple of 1 MiB when reduced); without --no-adjust... i.e. with opt_auto_adjust == false neither the dictionary size is touched nor multi-threaded mode dropped; raw format never adjusts
 assume: lzma_raw_encoder_memusage/lzma_raw_decoder_memusage/lzma_stream_encoder_mt_memusage/lzma_mt_block_size/lzma_lzma_preset/hardware_xxx are stubs; the relation between the estimates and real allocation is the liblzma side of C09 (other obligations)
 */
+/*@obligation
+id: C09.xz.settings.wide
+props: C09
+entry: h_settings
+flags: xz
+defs: -DST_THREADS=8 -DST_DICT_MIB=17
+tier: thorough
+kind: bounded
+bound: one filter chain (optional BCJ filter + LZMA1/LZMA2), at most 8 threads, dictionary size below 17 MiB with arbitrary low bits (the adjustment loops are completely unwound for these), memory estimates arbitrary per call
+unwind: 22
+fn: coder_set_compression_settings get_chains_memusage memlimit_too_small
+sentinels: 6
+expect: 20
+replay: none
+timeout: 3000
+desc: xz's pre-flight memory adjustment with liblzma's estimators replaced by stubs that may return ANY value at every call (recorded with the configuration they were asked about): when coder_set_compression_settings returns normally, the LAST estimate it obtained is for exactly the configuration it leaves behind (thread count / single- or multi-threaded mode / dictionary size) and that estimate is <= the memory limit in force -- the only exception being the documented one: multi-threaded compression with the AUTOMATIC (not user-specified) limit continues with one worker thread even if still above it; otherwise it ends in an error (memlimit_too_small / message_fatal); settings are only ever lowered (threads <= requested, dictionary <= requested, never below 1 MiB when reduced, still a multiple of 1 MiB when reduced); without --no-adjust... i.e. with opt_auto_adjust == false neither the dictionary size is touched nor multi-threaded mode dropped; raw format never adjusts
+assume: lzma_raw_encoder_memusage/lzma_raw_decoder_memusage/lzma_stream_encoder_mt_memusage/lzma_mt_block_size/lzma_lzma_preset/hardware_xxx are stubs; the relation between the estimates and real allocation is the liblzma side of C09 (other obligations)
+*/
 #include "verif.h"
 #include "coder.c"
 
@@ -82,7 +119,7 @@ struct in {
 	size_t rd[6]; uint8_t rd_eof[6], rd_fail[6], wr_fail[6];
 	uint8_t open_src_fail, open_dest_fail, coder_result, props_fail, force, to_stdout, format; uint32_t init_ret, props_dict;
 	/* settings */
-	uint64_t limit, limit_mt, est[12], mt_block; uint32_t threads, dict_size; uint8_t mt_default, auto_adjust, bcj, lzma1, use_preset;
+	uint64_t limit, limit_mt, est[32], mt_block; uint32_t threads, dict_size; uint8_t mt_default, auto_adjust, bcj, lzma1, use_preset;
 };
 static struct in IN VERIF_IN_INIT;
 
@@ -97,6 +134,11 @@ static struct {
 
 #ifndef CN_MAXCALLS
 #define CN_MAXCALLS 4
+#endif
+#define EST_MAX 32
+#ifndef ST_THREADS
+#define ST_THREADS 4
+#define ST_DICT_MIB 9
 #endif
 
 /* ---- liblzma ---- */
@@ -197,7 +239,7 @@ static lzma_options_lzma SOPT;
 static uint64_t est_stub(bool mt, uint32_t threads)
 {
 	const unsigned k = G.ests++;
-	__CPROVER_assume(k < 12);
+	__CPROVER_assume(k < EST_MAX);
 	/* unsupported options (UINT64_MAX) do not depend on the thread count or dictionary size being lowered */
 	__CPROVER_assume(k == 0 || IN.est[k] != UINT64_MAX);
 	const lzma_options_lzma *o = chains[0][IN.bcj ? 1 : 0].options;
@@ -329,7 +371,7 @@ void h_settings(void)
 	HAVOC(IN, struct in);
 	ASSUME(wf());
 	ASSUME(IN.mt_default <= 1 && IN.auto_adjust <= 1 && IN.bcj <= 1 && IN.lzma1 <= 1 && IN.use_preset <= 1);
-	ASSUME(IN.threads >= 1 && IN.threads <= 4 && IN.dict_size >= 4096 && IN.dict_size < (UINT32_C(9) << 20));
+	ASSUME(IN.threads >= 1 && IN.threads <= ST_THREADS && IN.dict_size >= 4096 && IN.dict_size < ((uint32_t)ST_DICT_MIB << 20));
 	ASSUME(IN.format == FORMAT_XZ || IN.format == FORMAT_LZMA || IN.format == FORMAT_RAW);
 	/* main(): the function is called when compressing, or for raw decoding; .lzma has exactly one LZMA1 filter, .xz never LZMA1 */
 	ASSUME(IN.compress || IN.format == FORMAT_RAW);
